@@ -401,8 +401,20 @@ HTTP_RECORDS = {
     "HttpRec": {"signature": (".sig", "Rec:HttpSig"), "is_generic": (".generic", "Bool"),
                 "signature.expected_software": (".sig.software", "Opt:Bytes")},
 }
+HDR_RECORDS = {
+    "SigHdr": {"lower_name": ("(lower {}.name)", "Bytes"), "is_optional": (".optional", "Bool"), "value": (".value", "Opt:Bytes")},
+    "Hdr": {"lower_name": ("(lower {}.name)", "Bytes"), "value": (".value", "Bytes")},
+}
 TARGETS.append(dict(
-    module="pyp0f.fingerprint.http", func="http_signatures_match", file="HttpSignaturesMatch", lean="httpSigMatch", import_="P0f.Model.Http", open="P0f P0f.Py",
+    module="pyp0f.fingerprint.http", func="headers_match", file="HeadersMatch", lean="headersMatch", import_="P0f.Model.Http", open="P0f P0f.Py",
+    pyparams=["signature_headers", "packet_headers"], params=[("sh", "List SigHdr"), ("ph", "List Hdr")], ret="Bool", lean_ret="Bool",
+    env={"signature_headers": ("sh", "List:Rec:SigHdr"), "packet_headers": ("ph", "List:Rec:Hdr")},
+    records=HDR_RECORDS, var_types={"i": "Nat", "original_index": "Nat"}, fuel="(ph.length + 1)",
+    lean_types={"Rec:SigHdr": "SigHdr", "Rec:Hdr": "Hdr"},
+    alias="def headersMatch (sh : List SigHdr) (ph : List Hdr) : Bool := P0f.headersMatch sh ph\n",
+))
+TARGETS.append(dict(
+    module="pyp0f.fingerprint.http", func="http_signatures_match", file="HttpSignaturesMatch", lean="httpSigMatch", import_="P0f.Generated.Logic.HeadersMatch", open="P0f P0f.Py",
     pyparams=["signature", "packet_signature"], params=[("s", "HttpSig"), ("minor", "Nat"), ("ph", "List Hdr")], ret="Bool", lean_ret="Bool",
     env={"signature.version": opt_int("s.version"), "packet_signature.version": ("minor", "Nat"),
          "packet_signature.header_names": ("()", "Unit"), "signature.headers": ("s.headers", "Rec:SigHdrs"), "packet_signature.headers": ("ph", "Rec:Hdrs")},
@@ -411,7 +423,7 @@ TARGETS.append(dict(
         # names, `packet_signature.header_names` = lower-cased packet header names (sets; dataclass plumbing, C09 / C07 tie them)
         "signature.header_names.issubset": lambda fn, a, k, e: ("((s.headers.filter (fun h => !h.optional)).all (fun h => (ph.map fun x => lower x.name).contains (lower h.name)))", "Bool"),
         "signature.absent_headers.intersection": lambda fn, a, k, e: ("(s.absent.filter fun a => (ph.map fun x => lower x.name).contains a)", "List:Bytes"),
-        "headers_match": lambda fn, a, k, e: ("(P0f.headersMatch s.headers ph)", "Bool"),
+        "headers_match": lambda fn, a, k, e: ("(P0f.Gen.headersMatch s.headers ph)", "Bool"),
     },
     alias="def httpSigMatch (s : HttpSig) (minor : Nat) (ph : List Hdr) : Bool := P0f.httpSigMatch s minor ph\n",
 ))
